@@ -58,7 +58,7 @@ from specs import resolver_spec as rs
 
 ID = 'C12'
 LEVEL = 'other'
-P_TARGETS = ['cgsmiles.graph_utils:merge_graphs']
+P_TARGETS = ['cgsmiles.graph_utils:merge_graphs', 'cgsmiles.graph_utils:set_atom_names_atomistic']
 BUDGET = {'quick': 32.0, 'thorough': 300.0}
 CHUNK = 12
 HASHSEEDS = ('0', '1', '4242')
